@@ -243,6 +243,11 @@ func mergeIOSACLs(ab *cmdsPair, name, prefix string) {
 	// Store changed ACL.
 	b0 := ab.bCmds[0]
 	b0.sub = acl
+	// Lines are now subcommands of b0. This is needed to get the
+	// correct ACL name, when lines are changed incrementally.
+	for _, c := range acl {
+		c.subCmdOf = b0
+	}
 	ab.a.lookup[prefix][name] = []*cmd{b0}
 }
 
